@@ -89,7 +89,7 @@ CHECKS = {
  },
  "C06": {
   "technique": "same engine as C05 viewed per Laue family: orbits of the brute-force allowed set under the live table's rotations and inversion; column/ordering/boundary checks on the function's own numbers",
-  "text": "genhkl_unique must hold exactly one row of every allowed Laue family and nothing else; genhkl_all must be exactly the union of the families of those rows; both outputs sorted by column 4, column 4 equal to |h|_G*/2 (1e-9), integer indices, rows inside (sintlmin, sintlmax]; output_stl=False must give the same rows; sintlmax = sintl of a returned row keeps it and sintlmin = that value drops it. Missing families are excused only by the open finding C06-rowwalk-early-exit under the same three conditions as C05.",
+  "text": "genhkl_unique must hold exactly one row of every allowed Laue family and nothing else; genhkl_all must be exactly the union of the families of those rows; both outputs sorted by column 4, column 4 equal to |h|_G*/2 (1e-9), integer indices, rows inside (sintlmin, sintlmax]; output_stl=False must give the same rows; sintlmax = sintl of a returned row keeps it and sintlmin = that value drops it (judged when the subject's own sintl gives one number for all lattice points of that length; otherwise the bound is within 1e-9 of another lattice value, outside the quantifier); called by number + cell_choice, by name, by plain name + cell_choice and positionally. Missing families are excused only by the open finding C06-rowwalk-early-exit under the same three conditions as C05.",
   "design_ref": "DESIGN.md section 3 C05/C06, section 4 row 5",
   "note": "as C05",
  },
@@ -112,8 +112,8 @@ CHECKS = {
   "note": _TB,
  },
  "C14": {
-  "technique": "differential monitor: every function defined in both modules (enumerated at run time, 41) is issued the same generated input in tools and laue; results compared after the documented 2 pi factor; genhkl* under a common numpy seed",
-  "text": "41 functions x generated inputs of C01-C03, C05, C06, C09, C13: tools' result must equal factor x laue's (factor 2 pi for B-valued results, 1 otherwise; B-like arguments and g-vectors scaled on the way in), exceptions must coincide; a function with fewer than 20 pairs makes the run inconclusive. The strain part of ubi_to_u_and_eps differs: open finding C14-ubi-eps-2pi (same defect as C13).",
+  "technique": "differential monitor: every function defined in both modules (enumerated at run time, 41) is issued the same generated input in tools and laue; results compared after the documented 2 pi factor; genhkl* under a common numpy seed, as lists of hkl rows in canonical order with sin(theta)/lambda equal to rounding (1e-12)",
+  "text": "41 functions (those still present in both modules) x generated inputs of C01-C03, C05, C06, C09, C13, incl. containers updated in place and fine lattice-parameter scans (steps of 4e-7 .. 6e-6): tools' result must equal factor x laue's (factor 2 pi for B-valued results, 1 otherwise; B-like arguments and g-vectors scaled on the way in), exceptions must coincide; a function with fewer than 20 pairs makes the run inconclusive. The strain part of ubi_to_u_and_eps differs: open finding C14-ubi-eps-2pi (same defect as C13).",
   "design_ref": "DESIGN.md section 3 C14, section 4 row 9",
   "note": _TB,
  },
@@ -130,8 +130,8 @@ CHECKS = {
   "note": "PyCifRW is trusted to parse what the generator writes; approximately special positions (images between 1e-7 and 1e-3 apart) are not judged for multiplicity",
  },
  "C18": {
-  "technique": "post-condition on reduce_cell + spy on the module's a_to_cell recording the chosen lattice vectors; oracles: exhaustive successive minima and integer unimodular equivalence search; mechanism classifier for the open transposition finding",
-  "text": "Volume must be preserved; the vectors handed to a_to_cell must be lattice vectors of index 1 with the successive-minima lengths (exhaustive box enumeration); the returned metric must be N'GN for an integer unimodular N with edges equal to the successive minima. For non-axis-aligned reduced bases the returned metric is R'R instead of RR': open finding C18-transposed-basis (pinned by an existing test), recognised only when R passes every check and the result equals R'R; on orthogonal inputs the whole property is required.",
+  "technique": "post-condition on reduce_cell (output only); oracles: exhaustive successive minima and integer unimodular equivalence search; mechanism classifier for the open transposition finding working from the returned cell alone; a spy on the module's a_to_cell records the chosen lattice vectors as an auxiliary observation",
+  "text": "Volume must be preserved; the returned metric must be N'GN for an integer unimodular N with edges equal to the successive minima (exhaustive box enumeration). For non-axis-aligned reduced bases the pinned tree returns R'R instead of RR' (R = row-stacked chosen vectors): open finding C18-transposed-basis (pinned by an existing test), recognised only when the returned metric equals sum v_i v_i' for lattice vectors v_i that realise the successive minima and form a basis (so a wrong choice of vectors is a VIOLATION); on orthogonal inputs, and on a tree where the finding is repaired, the whole property is required. If the implementation calls a_to_cell, its argument (vectors as rows or as columns) is checked as well; default range left out / passed by position / by keyword.",
   "design_ref": "DESIGN.md section 3 C18, section 4 row 13",
   "note": "cases whose successive minima are not reachable within |u|,|v|,|w| <= 2 are skipped (the property's range condition)",
  },
